@@ -210,9 +210,9 @@ AllowedF(F, style, tag) ==
        (IF tag = "none" THEN TypedReadings(F) \cup (IF F.must # "none" THEN {} ELSE {OStr})
         ELSE IF tag \in CoreTags THEN TaggedAllowedF(F, tag)
         ELSE {OStr})
-  ELSE \* quoted and block scalars are strings; with a core-schema tag the property text is silent
-       \* (it speaks of plain scalars), so the tagged readings are tolerated as well
-       (IF tag \in CoreTags THEN {OStr} \cup TaggedAllowedF(F, tag) ELSE {OStr})
+  ELSE \* "every quoted or block scalar loads as a string with identical content": whatever the tag
+       \* (the tagged rule of the property speaks of plain scalars only)
+       {OStr}
 Allowed(t, style, tag) == AllowedF(Facts(t), style, tag)
 
 \* the tagged rule of the property as a predicate on one result
